@@ -138,7 +138,7 @@ class Ctx:
             # packages of the main module, so the harness is built INSIDE a scratch copy of the library module; the binaries
             # then write their counters to $GOCOVERDIR
             hd = self._cover_copy()
-            cmd += ["-cover", "-coverpkg=./..."]
+            cmd += ["-cover", "-covermode=atomic", "-coverpkg=./..."]
             pkg = "./verifharness/" + pkg[2:]
         cmd.append(pkg)
         p = subprocess.run(cmd, cwd=hd, env=env, capture_output=True, text=True, timeout=900)
